@@ -5,6 +5,12 @@ import json, os, shutil, subprocess, sys, tempfile
 V = os.path.dirname(os.path.dirname(os.path.abspath(__file__)))
 PROPS = ["C%02d" % i for i in range(1, 20)]
 rows = []
+import re
+OPEN_KNOWN = set()
+for line in open(os.path.join(V, "known_findings.txt")):
+    m_ = re.match(r"open:\s+property=(\S+)\s+key=(\S+)", line.strip())
+    if m_:
+        OPEN_KNOWN.add(m_.group(2))
 only = sys.argv[1:]
 for sid in sorted(os.listdir(os.path.join(V, "seeded"))):
     if only and sid not in only:
@@ -37,7 +43,9 @@ for sid in sorted(os.listdir(os.path.join(V, "seeded"))):
                 caught.append(pr)
                 rd = os.path.join(s, "out", "reports", pr)
                 for f in sorted(os.listdir(rd)):
-                    keys.append(json.load(open(os.path.join(rd, f)))["key"])
+                    k = json.load(open(os.path.join(rd, f)))["key"]
+                    if k not in OPEN_KNOWN:     # open known findings of the unchanged tree are not what the seed triggers
+                        keys.append(k)
         meta["applies_to_current_head"] = True
         meta["caught_by"] = caught
         meta["violation_keys"] = keys
